@@ -164,6 +164,9 @@ def lay_out(a, layout):
     c = C-contiguous, f = Fortran order (rows are strided views), strided = every second row /
     element of a larger buffer, cols = the leading columns of a wider buffer."""
     a = np.array(a, dtype=np.float64)
+    if layout == "be":
+        b = a.astype(">f8")  # non-native byte order: still the caller's data
+        return b, b
     if layout == "f" and a.ndim == 2:
         b = np.asfortranarray(a)
         return b, b
